@@ -211,7 +211,10 @@ func runC13(c *Ctx) {
 		}
 	}
 	// ephemeral range constants and the value inserted
-	for _, in := range findU(dial, func(in ssa.Instruction) bool { cl, ok := in.(*ssa.Call); return ok && cl.Call.StaticCallee() == assignPort }) {
+	for _, in := range findU(dial, func(in ssa.Instruction) bool {
+		cl, ok := in.(*ssa.Call)
+		return ok && cl.Call.StaticCallee() == assignPort
+	}) {
 		cl := in.(*ssa.Call)
 		lo, ok1 := constInt(cl.Call.Args[2])
 		hi, ok2 := constInt(cl.Call.Args[3])
@@ -363,7 +366,10 @@ func runC13(c *Ctx) {
 			o.Fail(in.Pos(), "another chunk than the received one is delivered")
 		}
 		if !hasFact(in, func(ft fact) bool {
-			return boolFact(ft, func(v ssa.Value) bool { e, ok := v.(*ssa.Extract); return ok && e.Tuple == ssa.Value(fc) && e.Index == 1 }, true)
+			return boolFact(ft, func(v ssa.Value) bool {
+				e, ok := v.(*ssa.Extract)
+				return ok && e.Tuple == ssa.Value(fc) && e.Index == 1
+			}, true)
 		}) {
 			o.Fail(in.Pos(), "delivery without a found socket")
 		}
@@ -644,9 +650,9 @@ func runC01(c *Ctx) {
 		pc: func(in ssa.Instruction) bool {
 			return isInvoke(in, "onInboundChunk") || isCall(in, "(*vnet.Router).push")
 		},
-		rIn:     func(in ssa.Instruction) bool { return isCall(in, "(*vnet.Router).push") },
-		rpush:   func(in ssa.Instruction) bool { return isQueueCall(in, "push") },
-		netIn:   func(in ssa.Instruction) bool { return isCall(in, "(*vnet.UDPConn).onInboundChunk") },
+		rIn:   func(in ssa.Instruction) bool { return isCall(in, "(*vnet.Router).push") },
+		rpush: func(in ssa.Instruction) bool { return isQueueCall(in, "push") },
+		netIn: func(in ssa.Instruction) bool { return isCall(in, "(*vnet.UDPConn).onInboundChunk") },
 		netWrite: func(in ssa.Instruction) bool {
 			return isCall(in, "(*vnet.UDPConn).onInboundChunk") || isCall(in, "(*vnet.Router).push")
 		},
@@ -682,7 +688,9 @@ func runC01(c *Ctx) {
 				continue
 			}
 			st = posAfter(pop)
-			end = func(in ssa.Instruction) bool { return isReturn(in) || isQueueCall(in, "peek") || isQueueCall(in, "pop") }
+			end = func(in ssa.Instruction) bool {
+				return isReturn(in) || isQueueCall(in, "peek") || isQueueCall(in, "pop")
+			}
 		}
 		ev := fwdIn[f]
 		m, inf := maxEventsU(st, end, func(in ssa.Instruction) int { return b2i(ev(in)) })
@@ -714,7 +722,7 @@ func runC01(c *Ctx) {
 	// R3 drop edges
 	o = c.Obl("R3", "vnet.drop-edges", "a datagram is dropped only on the enumerated edges (user filter refused, destination NIC not found, no parent, NAT refused/returned nothing, router stopped, queue full, not UDP, no socket bound, socket closed, receive queue full); any other drop edge loses an admissible datagram", 6)
 	allowed := map[*ssa.Function][]string{
-		pc:       {"phi(blocked)", "helper:dynamic(vnet.Router.chunkFilters[])", "helper:dynamic", "!lookup(vnet.Router.nics)#1", "field(vnet.Router.parent)==nil", "(*vnet.networkAddressTranslator).translateOutbound#1!=nil", "(*vnet.networkAddressTranslator).translateOutbound#0==nil",
+		pc: {"phi(blocked)", "helper:dynamic(vnet.Router.chunkFilters[])", "helper:dynamic", "!lookup(vnet.Router.nics)#1", "field(vnet.Router.parent)==nil", "(*vnet.networkAddressTranslator).translateOutbound#1!=nil", "(*vnet.networkAddressTranslator).translateOutbound#0==nil",
 			"!(*vnet.chunkQueue).pop#1" /* nothing was dequeued */},
 		rpush:    {"field(vnet.Router.stopFunc)==nil", "!(*vnet.chunkQueue).push"},
 		rIn:      {"(*vnet.networkAddressTranslator).translateInbound#1!=nil"},
@@ -730,7 +738,9 @@ func runC01(c *Ctx) {
 				continue
 			}
 			st = posAfter(pop)
-			end = func(in ssa.Instruction) bool { return isReturn(in) || isQueueCall(in, "peek") || isQueueCall(in, "pop") }
+			end = func(in ssa.Instruction) bool {
+				return isReturn(in) || isQueueCall(in, "peek") || isQueueCall(in, "pop")
+			}
 		}
 		got := dropEdges(p, st, end, fwdIn[f])
 		o.Site(f.Pos(), "%s: drop edges %v", fname(f), got)
@@ -810,7 +820,10 @@ func runC01(c *Ctx) {
 				o.Fail(in.Pos(), "the socket is looked up by something else than the datagram's destination address")
 			}
 			if !hasFact(in, func(ft fact) bool {
-				return boolFact(ft, func(v ssa.Value) bool { e, ok := v.(*ssa.Extract); return ok && e.Tuple == ssa.Value(fc) && e.Index == 1 }, true)
+				return boolFact(ft, func(v ssa.Value) bool {
+					e, ok := v.(*ssa.Extract)
+					return ok && e.Tuple == ssa.Value(fc) && e.Index == 1
+				}, true)
 			}) {
 				o.Fail(in.Pos(), "delivery without a found socket")
 			}
@@ -839,7 +852,10 @@ func runC01(c *Ctx) {
 			o.Fail(in.Pos(), "the translated chunk is not pushed to the parent router")
 		}
 		if tout != nil && !hasFact(in, func(ft fact) bool {
-			return nilFact(ft, func(v ssa.Value) bool { e, ok := v.(*ssa.Extract); return ok && e.Tuple == ssa.Value(tout) && e.Index == 1 }, true)
+			return nilFact(ft, func(v ssa.Value) bool {
+				e, ok := v.(*ssa.Extract)
+				return ok && e.Tuple == ssa.Value(tout) && e.Index == 1
+			}, true)
 		}) {
 			o.Fail(in.Pos(), "the router forwards although the outbound translation failed")
 		}
